@@ -281,7 +281,55 @@ def normalisers(fx):
             chain, ident = None, False
         if chain:
             out.append((fn, ps[0]['vid'], chain, ('abstract', ident)))
+        elif fn.q.split('::')[-1] in called_on_tags(fx):
+            out.append((fn, ps[0]['vid'], None, ('grid', None)))
     return out
+
+
+def called_on_tags(fx):
+    """names of the one-argument helpers the tag-taking entry points pass their tag parameter to"""
+    if hasattr(fx, '_tag_helpers'):
+        return fx._tag_helpers
+    out = set()
+    for q, pname in (('gr_face_featureval_for_lang', 'langname'), ('gr_face_find_fref', 'featId')):
+        for fn in fx.fns_named(q):
+            vids = [p_['vid'] for p_ in fn.f['params'] if p_['n'] == pname]
+            for e in calls_in_(fn):
+                if vids and e.get('args') and len(e['args']) == 1 and _is_var(fn, e['args'][0], vids[0]):
+                    out.add((e.get('fq') or '').split('::')[-1])
+    fx._tag_helpers = out
+    return out
+
+
+GRID = (0x00, 0x01, 0x1F, 0x20, 0x21, 0x41, 0x7F, 0x80, 0xA0, 0xFF)
+
+
+def grid_eval(fx, fn):
+    """a normaliser whose body is not a recognisable padding chain (bit tricks, a loop) is interpreted from its own CFG (rules/ordint.py)
+    on every tag whose four bytes are taken from GRID -- below, at and above the space, with and without the high bit -- and compared
+    with the definition: the trailing run of 0x20 bytes becomes 0x00, nothing else changes.  Bounded: 10^4 tags, not all 2^32."""
+    from . import ordint as O
+    import itertools
+    n = 0
+    for bs in itertools.product(GRID, repeat=4):
+        x = (bs[0] << 24) | (bs[1] << 16) | (bs[2] << 8) | bs[3]
+        want = list(bs)
+        for k in (3, 2, 1, 0):
+            if want[k] != 0x20:
+                break
+            want[k] = 0
+        w = (want[0] << 24) | (want[1] << 16) | (want[2] << 8) | want[3]
+        it = O.Interp(fx)
+        it.MAX_STEPS = 2000
+        it.lz_arith_ok = True
+        n += 1
+        try:
+            got = it.call(fn, None, [x])
+        except O.Violation as v:
+            return n, 'tag %#010x: %s (%s)' % (x, v.what, v.loc)
+        if not isinstance(got, int) or (got & 0xFFFFFFFF) != w:
+            return n, 'tag %#010x is mapped to %s, its zero-padded form is %#010x' % (x, ('%#010x' % (got & 0xFFFFFFFF)) if isinstance(got, int) else repr(got), w)
+    return n, None
 
 
 def _check_chain(run, rule, name, fn, chain):
@@ -339,6 +387,19 @@ def check(run, fx, rule):
     for fn, vid, chain, tail in norms:
         name = fn.q.split('::')[-1]
         norm_names.add(fn.q)
+        if isinstance(tail, tuple) and tail[0] == 'grid':
+            from . import ordint as O
+            inst = '%s maps every grid tag to its zero-padded form' % name
+            try:
+                n_, bad = grid_eval(fx, fn)
+            except O.AnalysisBroken as ex:
+                raise AnalysisBroken('tag normaliser %s is neither a padding chain nor interpretable: %s' % (name, ex))
+            if bad:
+                run.violated(rule, inst, fn.where(), '%s: a space-padded tag and the zero-padded tag stored in the font no longer select the same script / language / feature, or an '
+                             'unpadded tag is altered' % bad)
+            else:
+                run.held(rule, inst, fn.where(), '%d tags over the byte grid %s interpreted' % (n_, [hex(b) for b in GRID]))
+            continue
         _check_chain(run, rule, name, fn, chain)
         if isinstance(tail, tuple) and tail[0] == 'abstract':
             ok = tail[1]
